@@ -24,6 +24,8 @@ RXNS = {
     "r2": (0, {"structs": ["s1", "s2"], "counts": [2, -1], "noise": 0.01}),
     "r3": (2, {"structs": ["s2", "s3"], "counts": [1, -2], "energy": 12.5, "noise_factor": 0.5}),
     "r4": (2, {"structs": ["s1"], "counts": [1], "energy": -30.0, "unit": 1.0 / 627.5095, "weight": 4.0, "noise_rel_factor": 0.01}),
+    # a system listed twice (A2 - A - A): the counts of repeated entries add up
+    "r5": (2, {"structs": ["s2", "s1", "s1"], "counts": [1, -1, -1], "energy": 3.5}),
 }
 
 
